@@ -311,6 +311,11 @@ func Scale(a *Term, k *big.Rat) *Term {
 // maxDistribute bounds the size of sums that products are distributed over.
 const maxDistribute = 48
 
+// Distribute enables polynomial normal forms for Real products (decides many
+// identities in the term layer instead of the solver). Off by default so that
+// the SMT solver, not the rewriter, discharges the algebraic obligations.
+var Distribute = false
+
 func Mul(a, b *Term) *Term {
 	s := sortOf(a, b)
 	a, b = coerce(a, s), coerce(b, s)
@@ -323,7 +328,7 @@ func Mul(a, b *Term) *Term {
 	// distribute over sums so that polynomials reach a normal form
 	aSum := a.Op == OSum && (len(a.Args) > 1 || a.Rat.Sign() != 0)
 	bSum := b.Op == OSum && (len(b.Args) > 1 || b.Rat.Sign() != 0)
-	if (aSum || bSum) && len(a.Args)*len(b.Args) <= maxDistribute && s == Real {
+	if Distribute && (aSum || bSum) && len(a.Args)*len(b.Args) <= maxDistribute && s == Real {
 		l := newLin()
 		type mono struct {
 			k *big.Rat
